@@ -47,7 +47,7 @@ MonStep(m, ev) ==
                !.lastFor = <<>>,   \* a registration may legitimately shadow cached generated entries
                !.wit = @ \cup {"add"}]
   ELSE
-     [m EXCEPT !.bad = Clause(m, ev),
+     [m EXCEPT !.bad = IF m.bad # <<>> THEN m.bad ELSE Clause(m, ev),
                !.lastFor = IF ev.custom THEN @
                            ELSE SelectSeq(@, LAMBDA t : ~(t[1] = ev.cn /\ t[2] = ev.sans)) \o <<<<ev.cn, ev.sans, ev.e>>>>,
                !.wit = @ \cup (IF ev.custom THEN {"get_custom"} ELSE {"get_generated"})
